@@ -98,6 +98,7 @@ gauge_case = st.fixed_dictionaries(dict(
     lat=wbsys.lattice_st(kinds=["triclinic", "generic"]),
     cgen=st.lists(st.lists(fl(0.0, 0.9), min_size=3, max_size=3), min_size=3, max_size=3),
     gs=st.lists(st.integers(0, 2 ** 31), min_size=2, max_size=2, unique=True),
+    imult=st.integers(0, 5), doff=st.sampled_from([0.03, 0.1, -0.05, 0.3, 0.011]),
     Ef=st.lists(st.sampled_from([-1.5, -0.7, -0.2, 0.1, 0.45, 0.9, 1.6]), min_size=1, max_size=3, unique=True),
 ))
 
@@ -129,6 +130,7 @@ def check_gauge(case):
     import wannierberri as wb
     from wannierberri.calculators import tabulate, static, dynamic, sdct
     from wannierberri.data_K import get_data_k_class_from_system
+    from wannierberri.grid.Kpoint import KpointBZparallel
     from vlib.runner import read_known
     known = read_known(PROPERTY_ID)
     system, model = degenerate_system(case)
@@ -169,6 +171,15 @@ def check_gauge(case):
             c["shc"] = static.SHC(Efermi=Ef, use_factor=False)
             c["dSDCT"] = sdct.SDCT(**dkw)
             c["tSpinBerry"] = tabulate.SpinBerry()
+        # tetrahedron method: first Fermi level just above a multiplet of the centre (the multiplet is split at the
+        # corners of the cell, so the level lies between the corner energies of its members)
+        Emult = float(np.sort(E)[case.get("imult", 0) % len(E)])
+        Ef_t = Emult + case.get("doff", 0.03) + 0.37 * np.arange(3)
+        c["ahc_tetra"] = static.AHC(Efermi=Ef_t, tetra=True, use_factor=False)
+        c["cumdos_tetra"] = static.CumDOS(Efermi=Ef_t, tetra=True, use_factor=False)
+        c["morb_tetra"] = static.Morb(Efermi=Ef_t, tetra=True, use_factor=False)
+        if spinful:
+            c["spin_tetra"] = static.Spin(Efermi=Ef_t, tetra=True, use_factor=False)
         if spinful:
             c["tSpin"] = tabulate.Spin()
             c["spin"] = static.Spin(Efermi=Ef, use_factor=False)
@@ -177,7 +188,11 @@ def check_gauge(case):
 
     def evaluate(random_gauge, seed):
         with numpy_seed(seed):
-            dk = cls(system, grid=grid, dK=k.copy(), random_gauge=random_gauge)
+            # a K-point cell around k (half of the zone in every direction), so that tetrahedron-method calculators can
+            # be evaluated: its corners are generic points where the multiplets of the centre are split
+            Kp = KpointBZparallel(K=k.copy(), dK=np.array([0.5, 0.5, 0.5]), NKFFT=np.array([1, 1, 1]), factor=1.,
+                                  pointgroup=system.pointgroup, refinement_level=0)
+            dk = cls(system, grid=grid, dK=k.copy(), Kpoint=Kp, random_gauge=random_gauge)
             U = np.array(dk.UU_K, copy=True)
             out = {name: np.asarray(c(dk).data) for name, c in calcs().items()}
         return out, U
